@@ -171,6 +171,11 @@ fn inputs(cfg: &RunCfg) -> Vec<Input> {
         label: "constraints-and-values".into(),
         text: "Cv-Mod DEFINITIONS ::= BEGIN\nA ::= INTEGER (0..10 | 20..30, ...)\nB ::= OCTET STRING (SIZE (1..4))\nC ::= IA5String (FROM (\"a\"..\"z\")) (SIZE (2))\nD ::= SEQUENCE { a [0] EXPLICIT A DEFAULT 5, b SET OF B, c BIT STRING { x(0), y(1) } OPTIONAL, ..., [[ 2: d NULL ]] }\nE ::= CHOICE { p [APPLICATION 1] IMPLICIT A, q OBJECT IDENTIFIER }\nv1 D ::= { a 3, b { 'AB'H } }\nv2 E ::= p : 7\nv3 OBJECT IDENTIFIER ::= { iso standard 8571 }\nv4 BIT STRING ::= '0101'B\nF ::= ENUMERATED { one(1), two, ..., three }\nG ::= A (ALL EXCEPT 5)\nH ::= IA5String (FROM (\"a\"..\"f\", ...))\nI ::= INTEGER (0..10, ..., 20..30)\nJ ::= INTEGER (4, ..., 6 | 8)\nK ::= UTF8String (SIZE (1..4, ..., 8)) (FROM (\"x\" | \"y\", ...))\nEND\n".into(),
     });
+    // extension markers with additions behind them, in every constructed type (the comma behind the marker is a boundary too)
+    out.push(Input {
+        label: "extensible-forms".into(),
+        text: "Ext-Mod DEFINITIONS AUTOMATIC TAGS ::= BEGIN\nA ::= CHOICE { a INTEGER, b BOOLEAN, ..., c NULL, d UTF8String }\nB ::= CHOICE { a INTEGER, ..., [[ c NULL, d UTF8String ]], e BOOLEAN }\nC ::= SEQUENCE { a INTEGER, ..., b BOOLEAN, [[ 2: c NULL ]], d UTF8String OPTIONAL }\nD ::= SET { a INTEGER, ..., b BOOLEAN }\nE ::= ENUMERATED { x, y, ..., z, w(9) }\nF ::= CHOICE { a INTEGER, ... }\nG ::= SEQUENCE { ..., a INTEGER }\none INTEGER ::= 1\nva A ::= a : one\nvb A ::= b : TRUE\nEND\n".into(),
+    });
     out.push(Input {
         label: "classes-and-parameters".into(),
         text: "Cp-Mod DEFINITIONS AUTOMATIC TAGS ::= BEGIN\nMY-CLASS ::= CLASS { &id INTEGER UNIQUE, &Type OPTIONAL } WITH SYNTAX { [TYPE &Type] ID &id }\nobj MY-CLASS ::= { TYPE BOOLEAN ID 1 }\nMySet MY-CLASS ::= { obj | { ID 2 }, ... }\nPar { T, INTEGER : n } ::= SEQUENCE { x T, y INTEGER (0..n) }\nInst ::= Par { BOOLEAN, 7 }\nUse ::= SEQUENCE { id MY-CLASS.&id ({MySet}), val MY-CLASS.&Type ({MySet}{@id}) }\nEND\n".into(),
